@@ -53,6 +53,10 @@ func genChangelogR(t *rt.Tape, tier string, r *rt.Run) ([]*clEntry, []byte) {
 		maxEntries = 8
 	}
 	n := t.Range(1, maxEntries, "cl.entries")
+	if r != nil && t.Bool(1, 80, "cl.many") {
+		n = 100 + t.Draw(500, "cl.many.n")
+		r.Probe("changelog-with-hundreds-of-entries")
+	}
 	var sb strings.Builder
 	for i := 0; i < t.Weighted([]int{6, 1, 1}, "cl.leadblank"); i++ {
 		sb.WriteString("\n")
@@ -693,5 +697,5 @@ func init() {
 		},
 		Assumptions: []string{"reference renderer and entry model written from deb-changelog(5), independent of the library", "time.Time comparison trusts the Go standard library"},
 	})
-	propProbes["C17"] = []string{"result-edited-then-parsed-again", "via-file-entry-point", "file-call-failed:open", "file-call-failed:read", "ParseOne-on-a-small-bufio-reader", "concurrent-parses-after-a-truncated-one", "change-line-longer-than-4096-bytes", "change-line-with-carriage-return", "no-final-newline", "truncate-on-entry-boundary", "truncate-inside-entry", "truncate-only-final-newline-missing"}
+	propProbes["C17"] = []string{"changelog-with-hundreds-of-entries", "result-edited-then-parsed-again", "via-file-entry-point", "file-call-failed:open", "file-call-failed:read", "ParseOne-on-a-small-bufio-reader", "concurrent-parses-after-a-truncated-one", "change-line-longer-than-4096-bytes", "change-line-with-carriage-return", "no-final-newline", "truncate-on-entry-boundary", "truncate-inside-entry", "truncate-only-final-newline-missing"}
 }
